@@ -541,16 +541,19 @@ namespace Dune
     // Distance to copy to the left.
     size_t distance = start_/chunkSize_;
     if(distance>0) {
-      // Number of chunks with entries in it;
-      size_t chunks = ((start_%chunkSize_ + size_)/chunkSize_ );
+      // Number of chunks with entries in it (the last one may be partially filled)
+      size_t chunks = ((start_%chunkSize_ + size_ + chunkSize_ - 1)/chunkSize_ );
 
       // Copy chunks to the left.
       std::copy(chunks_.begin()+distance,
                 chunks_.begin()+(distance+chunks), chunks_.begin());
 
+      // Drop the stale pointers behind the moved chunks
+      chunks_.resize(chunks);
+
       // Calculate new parameters
       start_ = start_ % chunkSize_;
-      //capacity += distance * chunkSize_;
+      capacity_ = chunks * chunkSize_;
     }
   }
 
